@@ -55,6 +55,8 @@ type NPPeer struct {
 type NPRule struct {
 	Peers []NPPeer
 	Ports []NPPort
+	// spell an empty list as `[]` instead of omitting the field (same meaning in the API)
+	PeersEmptyList, PortsEmptyList bool
 }
 
 type NP struct {
@@ -62,6 +64,9 @@ type NP struct {
 	PodSel          Sel
 	Types           []string // nil = absent
 	Ingress, Egress []NPRule
+	// spell a direction without rules as `ingress: []` / `egress: []` instead of omitting it
+	IngressEmptyList, EgressEmptyList bool
+	UID                               string // metadata.uid ("" = absent)
 }
 
 type APort struct {
